@@ -144,3 +144,19 @@ Definition model_reject (case_ : N) : N :=
            | _ => adopt_check 0 hdr 4096 8192 (Some 1048576) HWLOC_TOPOLOGY_ABI
            end in
   match r with AdoptOk => 0 | AdoptErr e => e | AdoptMmapFailed => 998 end.
+
+(* ---------------------------------------------------------------- systematic corruption of the stored header / ABI
+   (what harness/hwv_shmem.c "rejectsweep" applies to the file): every single-bit flip of each field, neighbouring ABI values *)
+Definition flips (bits : nat) (v : N) : list N := map (fun k => N.lxor v (2 ^ N.of_nat k)) (seq 0 bits).
+Definition is_einval (r : adopt_result) : bool := match r with AdoptErr e => e =? EINVAL_ | _ => false end.
+Definition corrupted_abis : list N :=
+  flips 32 HWLOC_TOPOLOGY_ABI ++ [HWLOC_TOPOLOGY_ABI + 1; HWLOC_TOPOLOGY_ABI - 1; HWLOC_TOPOLOGY_ABI + 256; HWLOC_TOPOLOGY_ABI - 256;
+                                  229376 (* 0x38000 *); 131072; 262144; 0; 4294967295; N.lor HWLOC_TOPOLOGY_ABI 65535].
+Definition corrupted_headers (addr len : N) : list header :=
+  map (fun v => {| h_version := v; h_length := SHMEM_HEADER_LENGTH; h_address := addr; h_mmap_length := len |}) (flips 32 HWLOC_SHMEM_HEADER_VERSION) ++
+  map (fun v => {| h_version := HWLOC_SHMEM_HEADER_VERSION; h_length := v; h_address := addr; h_mmap_length := len |}) (flips 32 SHMEM_HEADER_LENGTH) ++
+  map (fun v => {| h_version := HWLOC_SHMEM_HEADER_VERSION; h_length := SHMEM_HEADER_LENGTH; h_address := v; h_mmap_length := len |}) (flips 64 addr) ++
+  map (fun v => {| h_version := HWLOC_SHMEM_HEADER_VERSION; h_length := SHMEM_HEADER_LENGTH; h_address := addr; h_mmap_length := v |}) (flips 64 len).
+Definition corruption_table_ok (addr len : N) : bool :=
+  forallb (fun a => is_einval (adopt_check 0 (write_header addr len) addr len (Some addr) a)) corrupted_abis &&
+  forallb (fun h => is_einval (adopt_check 0 h addr len (Some addr) HWLOC_TOPOLOGY_ABI)) (corrupted_headers addr len).
